@@ -18,6 +18,7 @@ import numpy as np
 
 from harness import c03_lib as L
 from harness import c03_run as R
+from harness import c03_streams as S
 from harness import core
 
 PROP_MODULES = ["OV.Props.C04"]
@@ -112,6 +113,15 @@ def main(run: core.Run) -> None:
 
     # ---- rules introducing a new domain, matching only inside subgraphs / functions / main graph
     rule_failures = R.custom_rule_stream(run, stats)
+    # ---- functions (checker/walker on bodies, `modified`), evaluator state across opsets, shape inference with overrides
+    extra = (S.function_stream(run, drv, stats, hist, run.size(16, 64)) + S.opset_history_stream(run, stats)
+             + S.shape_override_stream(run, stats, run.size(10, 40)))
+    for kind, desc, detail in extra:
+        if kind == "validity" or (kind == "semantic" and "override" in desc):
+            rule_failures.append(({k: v for k, v in desc.items() if k != "meta"}, detail))
+        elif kind == "tie":
+            tie_problems.append(("tie", {"model_b64": desc["model_b64"], "in_limit": 8192, "out_limit": 262144, "should_fold": "N",
+                                         "tags": [str(desc.get("meta"))]}, detail))
 
     for m, meta in models[:6]:
         run.sample({"tags": meta["tags"], "opset": meta["opset"], "nodes": len(m.graph.node), "init_inputs": meta["init_inputs"]})
